@@ -1,1 +1,44 @@
-fn main() { verif_sim::hello(); println!("ok"); }
+use std::time::Duration;
+use verif_sim::props;
+use verif_sim::simkit::runner::{install_panic_hook, replay_file, run_batch, BatchCfg, Tier};
+
+fn usage() -> ! {
+    eprintln!("usage: check <ID> [--tier quick|thorough] [--replay FILE] [--runs N] [--threads N] [--wall SECS]\n       env VERIF_SEED, VERIF_TIER");
+    std::process::exit(2);
+}
+
+fn main() {
+    let args: Vec<String> = std::env::args().collect();
+    if args.len() < 2 { usage(); }
+    let id = args[1].to_uppercase();
+    let mut tier = match std::env::var("VERIF_TIER").ok().as_deref() { Some("thorough") => Tier::Thorough, _ => Tier::Quick };
+    let mut replay = None;
+    let mut runs = None;
+    let mut threads = std::thread::available_parallelism().map(|n| n.get()).unwrap_or(8).min(16);
+    let mut wall = None;
+    let mut i = 2;
+    while i < args.len() {
+        match args[i].as_str() {
+            "--tier" => { i += 1; tier = if args.get(i).map(|s| s.as_str()) == Some("thorough") { Tier::Thorough } else { Tier::Quick }; }
+            "--replay" => { i += 1; replay = args.get(i).cloned(); }
+            "--runs" => { i += 1; runs = args.get(i).and_then(|s| s.parse().ok()); }
+            "--threads" => { i += 1; threads = args.get(i).and_then(|s| s.parse().ok()).unwrap_or(threads); }
+            "--wall" => { i += 1; wall = args.get(i).and_then(|s| s.parse::<u64>().ok()); }
+            _ => usage(),
+        }
+        i += 1;
+    }
+    let seed: u64 = std::env::var("VERIF_SEED").ok().and_then(|s| s.parse().ok()).unwrap_or(20260924);
+    install_panic_hook();
+    let Some(prop) = props::by_id(&id) else { eprintln!("unknown property {}", id); std::process::exit(2) };
+    if let Some(path) = replay {
+        std::process::exit(replay_file(prop.as_ref(), &path));
+    }
+    let cfg = BatchCfg {
+        seed, tier,
+        runs: runs.unwrap_or_else(|| prop.runs(tier)),
+        threads,
+        wall: Duration::from_secs(wall.unwrap_or(match tier { Tier::Quick => 240, Tier::Thorough => 3000 })),
+    };
+    std::process::exit(run_batch(prop.as_ref(), &cfg));
+}
